@@ -2554,7 +2554,38 @@ class Evaluator:
     def e_DictComp(self, e, fr):
         return self.comp(e, fr, "dict")
 
+    def _comp_over_bounded_generator(self, e, fr):
+        """[ELT for T in zip(range(N), gen(...))] is the loop `acc = []; for T in zip(range(N), gen(...)): acc.append(ELT)`, which the
+        generator / consumer fusion turns into one loop (at most N elements, the range asked first). NotImplemented otherwise."""
+        from .fuse import zip_range_parts
+        if len(e.generators) != 1 or e.generators[0].ifs or e.generators[0].is_async or zip_range_parts(e.generators[0].iter) is None or fr.fi is None:
+            return NotImplemented
+        gen = e.generators[0]
+        self._comp_n = getattr(self, "_comp_n", 0) + 1
+        acc = "__comp%d_acc" % self._comp_n
+        loop = ast.For(target=gen.target, iter=gen.iter,
+                       body=[ast.Expr(value=ast.Call(func=ast.Attribute(value=ast.Name(id=acc, ctx=ast.Load()), attr="append", ctx=ast.Load()), args=[e.elt], keywords=[]))], orelse=[])
+        ast.copy_location(loop, e)
+        ast.fix_missing_locations(loop)
+        fused = self._fuse_generator_loop(loop, fr)
+        if fused is None:
+            return NotImplemented
+        names = {n_.id for n_ in ast.walk(gen.target) if isinstance(n_, ast.Name)}
+        saved = {n_: fr.env[n_] for n_ in names if n_ in fr.env}
+        fr.env[acc] = []
+        if self.block(fused, fr):
+            raise AnalysisError("a comprehension over a bounded generator does not complete normally at %s:%d" % (fr.modname, e.lineno))
+        out = fr.env.pop(acc)
+        for n_ in names:  # the comprehension's own variables do not leak
+            fr.env.pop(n_, None)
+        fr.env.update(saved)
+        return out
+
     def comp(self, e, fr, kind, gi=0, sub=None):
+        if kind == "list" and gi == 0 and sub is None:
+            r_ = self._comp_over_bounded_generator(e, fr)
+            if r_ is not NotImplemented:
+                return r_
         sub = sub or fr.fork()
         gen = e.generators[gi]
         it = self.expr(gen.iter, sub)
